@@ -937,6 +937,17 @@ class TreeTransform(Generic[TreeFnT]):
       result.update(itertools.chain(non_dict_keys, *dict_keys))
     return result
 
+  def _check_duplicate_output_keys(self, output_keys: TreeMapKeys):
+    """Checks one operation does not output to the same key twice."""
+    non_dict_keys, dict_keys = mit.partition(_is_dict, output_keys)
+    keys = [
+        k
+        for k in itertools.chain(non_dict_keys, *dict_keys)
+        if k != tree.Key.SKIP
+    ]
+    if len(set(keys)) != len(keys):
+      raise KeyError(f'Duplicate output_keys within {output_keys}')
+
   def _check_assign_keys(
       self,
       assign_keys: TreeMapKeys,
@@ -1015,6 +1026,7 @@ class TreeTransform(Generic[TreeFnT]):
     fn = tree_fns.Select(
         input_keys=input_keys, output_keys=output_keys, batch_size=batch_size
     )
+    self._check_duplicate_output_keys(fn.output_keys)
     return self._maybe_new_transform(fn)
 
   def batch(self, batch_size: int = 0):
@@ -1122,6 +1134,7 @@ class TreeTransform(Generic[TreeFnT]):
         fn_batch_size=fn_batch_size,
         batch_size=batch_size,
     )
+    self._check_duplicate_output_keys(fn.output_keys)
     return self._maybe_new_transform(fn)
 
   def flatten_transform(self) -> list[TreeTransform]:
